@@ -380,6 +380,19 @@ Theorem C11x_oracle_sound_checked : forall c, c11x_cleanb c = true -> c11x_check
 Proof. exact c11x_oracle_sound_checked. Qed.
 Print Assumptions C11x_oracle_sound_checked.
 
+(* the decorator over a failing engine: whatever class one failing method (Get, Del, DelCurrent, Commit) of the
+   decorated engine answers with — not found, failed condition, conflict, any other error — is the class the
+   decorator's caller sees, and the stored record is untouched; the KWrapFault check of these kinds is equality with
+   this model (kind 4, a failing Iter, is outside the adapter signature: a_iter has no error outcome) *)
+Theorem C11_decorator_passes_engine_errors : forall kind c, kind < 4 -> fault_model kind c = (c, true).
+Proof. exact fault_model_passes. Qed.
+Print Assumptions C11_decorator_passes_engine_errors.
+
+Theorem C11_wrapfault_check_is_decorator_model : forall kind injected observed intact, kind < 4 ->
+  c11_check (KWrapFault kind injected observed intact) = true <-> (observed, intact) = fault_model kind injected.
+Proof. exact wrapfault_check_is_model. Qed.
+Print Assumptions C11_wrapfault_check_is_decorator_model.
+
 (* non-vacuity: a run with a held wrapped iterator, a refused batch, a compare-and-delete, a missing key and an
    iterator replaced while held; its emissions *)
 Definition ex_wops : list sop :=
